@@ -18,18 +18,20 @@ def validates (a : SockAddr) (p : Op × Out) : Bool :=
 /-- one step: the validated set grows by exactly the accepted source address, or not at all -/
 theorem step_validated (s : State) (op : Op) (a : SockAddr) :
     isValidatedPeer (step s op).1 a = (isValidatedPeer s a || validates a (op, (step s op).2)) := by
-  sorry
+  exact step_acceptedFrom s op a
 
 /-- `is_validated_peer(a)` after any history is true exactly when some earlier call handed the agent
     a request/indication from `a` or delivered a response from `a` -/
 theorem validated_iff (tr : Transport) (loc : SockAddr) (ops : List Op) (a : SockAddr) :
     isValidatedPeer (after (State.init tr loc) ops) a = (trace (State.init tr loc) ops).any (validates a) := by
-  sorry
+  have h := isValidatedPeer_after (State.init tr loc) ops a
+  rw [h]
+  rfl
 
 /-- once validated, always validated -/
 theorem monotone (s : State) (ops : List Op) (a : SockAddr) (h : isValidatedPeer s a = true) :
     isValidatedPeer (after s ops) a = true := by
-  sorry
+  rw [isValidatedPeer_after, h, Bool.true_or]
 
 /-- dropped messages validate nobody; neither do send, poll, cancel, configuration or credential
     calls -/
@@ -39,12 +41,18 @@ theorem others_never_validate (s : State) (op : Op) (a : SockAddr)
       | .handle _ _, _ => False
       | _, _ => True) :
     isValidatedPeer (step s op).1 a = isValidatedPeer s a := by
-  sorry
+  have hv : acceptedFrom a (op, (step s op).2) = false := by
+    cases op with
+    | handle m src =>
+      generalize (step s (.handle m src)).2 = o at h
+      cases o <;> first | exact h.elim | rfl
+    | _ => rfl
+  rw [step_acceptedFrom, hv, Bool.or_false]
 
 /-- validation of one address never validates another -/
 theorem no_cross (s : State) (m : InMsg) (src a : SockAddr) (h : a ≠ src) :
     isValidatedPeer (step s (.handle m src)).1 a = isValidatedPeer s a := by
-  sorry
+  rw [step_acceptedFrom, acceptedFrom_handle_ne m src a _ h, Bool.or_false]
 
 /-! Non-vacuity: sending to 7 does not validate it; a dropped response from 7 does not; an incoming
     request from 8 validates 8 only; the genuine response validates 7. -/
